@@ -727,14 +727,60 @@ def simple_contagion_rule(repo, rep):
     rep.ob("RATE", oka, "simple contagion: the actor is sampled by weight from the chosen transition's candidates", func=f,
            node=act[0] if act else loop, construct=short(act[0]) if act else None, detail="" if oka else "actor selection changed")
     sp = [c for c in walk_function(f.node) if isinstance(c.stmt, ast.Assign) and _key(c.stmt.targets[0]) == "spontaneous" and loop in c.loops]
-    okf = len(sp) == 2
-    for c in sp:
-        val = c.stmt.value.value if isinstance(c.stmt.value, ast.Constant) else None
-        mem = any(pol and _key(fx) == "transitioninspontaneous_transitions" for fx, pol in c.facts)
-        nmem = any((not pol) and _key(fx) == "transitioninspontaneous_transitions" for fx, pol in c.facts)
-        okf = okf and ((val is True and mem) or (val is False and nmem))
+    if len(sp) == 1 and _key(sp[0].stmt.value) == "transitioninspontaneous_transitions":
+        okf = True            # the flag IS the membership test
+    else:
+        okf = len(sp) == 2
+        for c in sp:
+            val = c.stmt.value.value if isinstance(c.stmt.value, ast.Constant) else None
+            mem = any(pol and _key(fx) == "transitioninspontaneous_transitions" for fx, pol in c.facts)
+            nmem = any((not pol) and _key(fx) == "transitioninspontaneous_transitions" for fx, pol in c.facts)
+            okf = okf and ((val is True and mem) or (val is False and nmem))
     rep.ob("RATE", okf, "simple contagion: an event is spontaneous exactly when its spec edge is a spontaneous one", func=f, node=loop,
            construct="spontaneous flag", detail="" if okf else "spontaneous/induced classification changed")
+    # the re-summation guard against cancellation residue looks at the total AFTER this event's removals / updates
+    ng = 0
+    for c in walk_function(f.node):
+        st = c.stmt
+        if not (isinstance(st, ast.Expr) and isinstance(st.value, ast.Call) and isinstance(st.value.func, ast.Attribute)
+                and st.value.func.attr == "update_total_weight"):
+            continue
+        ng += 1
+        recv = _key(st.value.func.value)
+        guard = next((p for p in reversed(c.parents) if isinstance(p, ast.If)), None)
+        okg = False
+        why = "no enclosing test"
+        if guard is not None:
+            direct = [x for x in ast.walk(guard.test) if isinstance(x, ast.Call) and isinstance(x.func, ast.Attribute)
+                      and x.func.attr == "total_weight" and _key(x.func.value) == recv]
+            temps = [x.id for x in ast.walk(guard.test) if isinstance(x, ast.Name)]
+            stale = []
+            # a local that caches the total must be assigned after the last removal / update of the same candidate set in the block
+            blk = None
+            for par in reversed(c.parents):
+                for fld in ("body", "orelse"):
+                    b = getattr(par, fld, None)
+                    if isinstance(b, list) and guard in b:
+                        blk = b
+                if blk is not None:
+                    break
+            if blk is not None:
+                gi = blk.index(guard)
+                for tname in temps:
+                    defs_ = [i for i, z in enumerate(blk[:gi]) if isinstance(z, ast.Assign) and _key(z.targets[0]) == tname
+                             and any(isinstance(y, ast.Call) and isinstance(y.func, ast.Attribute) and y.func.attr == "total_weight" for y in ast.walk(z.value))]
+                    if not defs_:
+                        continue
+                    after = blk[defs_[-1] + 1:gi]
+                    if any(isinstance(y, ast.Call) and isinstance(y.func, ast.Attribute) and y.func.attr in ("remove", "update", "insert")
+                           for z in after for y in ast.walk(z)):
+                        stale.append(tname)
+            okg = bool(direct or [t for t in temps if t not in stale and t != "transition"]) and not stale
+            why = "reads %s, assigned before this event's remove/update calls" % stale if stale else "guard does not read the total"
+        rep.ob("RATE", okg, "simple contagion: the total is re-summed when the CURRENT total (after this event's updates) is a tiny non-zero residue",
+               func=f, node=st, construct="%s.update_total_weight() guard" % recv,
+               detail="" if okg else "the roundoff guard %s: the clock then runs on the cancellation residue until the list is next touched" % why)
+    rep.floor("RATE", "roundoff guards in the update sections", ng, 2)
     # weight tables keyed like the candidates
     wl = 0
     for c in walk_function(f.node):
